@@ -8,6 +8,11 @@ Z13 — raw HTML tag lexing, enumerated: every shape of open / closing tag the s
       paragraph, in a list item and in a block quote.
       Added after the seeded change C03-r2m2 (a backtick accepted in an unquoted attribute value by the
       block-level recogniser only) was missed: Z6 sweeps numeric limits, not the tag grammar.
+Z14 — character references, backslashes and percent signs, complete and cut short, as the *last* characters of
+      every string the parser un-escapes on its own (paragraph, heading, link title / destination / label,
+      definition, fence info string, code span, autolink, attribute value), with and without a final newline.
+      Added after the seeded change C01-r2m2 (an unterminated numeric reference at the end of the string
+      indexed past it) was missed: in the other zones something always follows the digits.
 """
 import hashlib
 import os
@@ -62,6 +67,26 @@ def z13(i):
 
 
 U.ZONES["Z13"] = (z13, lambda: len(_TAGS) * CONTEXTS)
+
+
+# ------------------------------------------------------------------ Z14
+REFS = ["&#9", "&#8364", "&#x1F", "&#X20AC", "&#1234567", "&#12345678", "&#", "&#x", "&#xZ", "&amp", "&amp;", "&#35;", "&nosuch;", "&#0;", "&#xD800;",
+        "&copy", "\\", "\\*", "%", "%4", "%41", "&", "&#;", "&#x;", "&#99999999;", "&a1;", "&#x10FFFF;", "é&#233"]
+PLACES = [
+    "price: 5 {r}", "# Copyright {r}", "title {r}\n===", '[a](/u "{r}")', "[a](/u '{r}')", "[a](/u ({r}))", '[a]: /u "{r}"\n\n[a]', "``` {r}\ncode\n```", "~~~{r}\ncode\n~~~",
+    "[a](/{r})", "[a](</{r}>)", "<http://x.y/{r}>", "`{r}`", "[{r}]", "![{r}](/u)", "x {r}\ny", "*{r}*", '<a b="{r}">', "[{r}]: /u\n\n[{r}]", "[a]: /{r}\n\n[a]",
+    "- {r}", "> {r}", "    {r}", "<div>\n{r}", "{r}", "a {r} b", "[a][{r}]\n\n[{r}]: /u", "{r}{r}",
+]
+
+
+def z14(i):
+    k, nl = divmod(i, 2)
+    r = REFS[k % len(REFS)]
+    pl = PLACES[k // len(REFS)]
+    return pl.replace("{r}", r) + ("\n" if nl else "")
+
+
+U.ZONES["Z14"] = (z14, lambda: len(REFS) * len(PLACES) * 2)
 
 
 def content_hash():
